@@ -10,7 +10,7 @@ Acceptance of *exactly* the valid polygons is data-dependent and not decided.
 """
 import re
 from ..facts import Facts, short
-from ..symex import show, show_pc, Unanalysable
+from ..symex import Symex, show, show_pc, Unanalysable
 from .c01 import opaque, calls_of
 
 LEVEL = "other"
@@ -325,53 +325,84 @@ def delegation(rep, F):
 
 
 def self_intersection(rep, F):
-    """R14.6: the ring simplicity helper is the complete pairwise test: its only decisions are the two loop iterators, `i == j`, the exact
-    segment predicate and the two shared-end-point exemptions; `false` is returned only after both loops are exhausted."""
-    from .c01 import opaque
+    """R14.6: the ring simplicity helper on a line string of 4 coordinates (3 segments: adjacent and non-adjacent pairs), with the number of
+    elements concrete so that loops and iterator chains (`for`, `any`, ...) unroll exactly: the complete path table must say
+      true  only if some pair of distinct segments intersects and neither `start_i == end_j` nor `end_i == start_j` holds, and
+      false only if every pair of distinct segments was found not to satisfy that,
+    and no decision may be anything but a segment-pair predicate or an end-point equality (a ring-level shortcut is a foreign decision)."""
     from ..symex import bare
-    rep.rule("R14.6", "linestring_has_self_intersection: decisions are only {loop iterators, i == j, line.intersects(other), line.start == other.end, line.end == other.start}; "
-                      "true iff i != j, intersects and neither end-point exemption; false only when the pair loops are exhausted (no shortcut)")
+    rep.rule("R14.6", "linestring_has_self_intersection (3 segments, exact unrolling): true iff some pair of distinct segments intersects without sharing the end points that chain them; "
+                      "false only after every pair was examined; no other decision")
     try:
         fn = F.one(r"validation::utils::linestring_has_self_intersection$", crates=("geo",))
-        ps = opaque(F, loop_bound=1).run(fn)
+        N = 4
+        LS = "geo_types::geometry::line_string::LineString"
+        elems = tuple(("index", ("field", ("deref", ("arg", 1)), "0"), ("const", k)) for k in range(N))
+        ring = ("&", ("adt", LS, "LineString", (("call", "vec!", (("array", elems),)),)))
+        ex = Symex(F, no_inline=[r"Intersects.*::intersects$"], loop_bound=N * N + 4, max_paths=100000, budget_s=60, concrete_iters=True)
+        ex.assume_reflexive = True
+        ps = ex.run(fn, args=[ring])
     except (KeyError, Unanalysable) as e:
         rep.bad("R14.6", "anchor", str(e))
         return
-    kinds = [("next", re.compile(r"^discr\(next\(")), ("idx", re.compile(r"^\(\(next\(.*\) as Some\)\.0\.0 == \(next\(.*\) as Some\)\.0\.0\)$")),
-             ("int", re.compile(r"^intersects\(\(next\(.*\) as Some\)\.0\.1, \(next\(.*\) as Some\)\.0\.1\)$")),
-             ("se", re.compile(r"^\(\(next\(.*\) as Some\)\.0\.1\.start == \(next\(.*\) as Some\)\.0\.1\.end\)$")),
-             ("es", re.compile(r"^\(\(next\(.*\) as Some\)\.0\.1\.end == \(next\(.*\) as Some\)\.0\.1\.start\)$"))]
+    if any(p.kind == "cut" for p in ps):
+        rep.bad("R14.6", "unbounded", "the helper does not terminate within the exact unrolling of a 3-segment line string", where=fn.loc())
+        return
+    C = r"(?:into\()?\*?a1\.0\[(\d)\]\)?"
+    re_int = re.compile(r"^intersects\(Line::Line\(%s, %s\), Line::Line\(%s, %s\)\)$" % (C, C, C, C))
+    re_eq = re.compile(r"^\(%s == %s\)$" % (C, C))
     n = 0
     for p in ps:
-        if p.kind == "cut":
-            continue
-        seq = []
+        if p.kind != "ret":
+            rep.bad("R14.6", "panic", "a path of the helper panics: %s" % show_pc(p.pc)[:120], where=fn.loc())
+            return
+        vint, veq = {}, {}
         for t, v in p.pc:
             b = bare(t)
-            k = next((name for name, rx in kinds if rx.match(b)), None)
-            if k is None:
-                rep.bad("R14.6", "foreign-decision", "the result depends on `%s` (= %s), which is not part of the pairwise segment test: a ring-level shortcut decides simplicity "
-                        "without looking at the segment pairs" % (b[:120], v), where=fn.loc())
-                return
-            seq.append((k, v))
+            m = re_int.match(b)
+            if m:
+                a0, a1_, b0, b1 = (int(x) for x in m.groups())
+                if a1_ != a0 + 1 or b1 != b0 + 1:
+                    rep.bad("R14.6", "foreign-decision", "a tested segment is not a segment of the line string: %s" % b[:120], where=fn.loc())
+                    return
+                vint[frozenset((a0, b0))] = v
+                continue
+            m = re_eq.match(b)
+            if m:
+                veq[frozenset(int(x) for x in m.groups())] = v
+                continue
+            rep.bad("R14.6", "foreign-decision", "the result depends on `%s` (= %s), which is neither a segment-pair predicate nor an end-point equality: a ring-level shortcut decides "
+                    "simplicity without looking at the segment pairs" % (b[:120], v), where=fn.loc())
+            return
+
+        def cond(i, j):
+            I = vint.get(frozenset((i, j)))
+            se = 1 if i == j + 1 else veq.get(frozenset((i, j + 1)))
+            es = 1 if i + 1 == j else veq.get(frozenset((i + 1, j)))
+            if I == 0 or se == 1 or es == 1:
+                return False
+            if I == 1 and se == 0 and es == 0:
+                return True
+            return None
+        pairs = [(i, j) for i in range(N - 1) for j in range(N - 1) if i < j]
+        r = bare(p.ret)
         n += 1
-        r = bare(p.ret) if p.ret is not None else p.kind
         if r == "True":
-            tail = seq[-4:]
-            if tail != [("idx", 0), ("int", 1), ("se", 0), ("es", 0)]:
-                rep.bad("R14.6", "true-condition", "true is returned on %s; expected i != j, intersects, start != other.end, end != other.start" % tail, where=fn.loc())
+            if not any(cond(i, j) is True or cond(j, i) is True for i, j in pairs):
+                rep.bad("R14.6", "true-condition", "true is returned on [%s] although no pair of distinct segments was found intersecting away from their chaining end points" % show_pc(p.pc)[:200], where=fn.loc())
                 return
         elif r == "False":
-            if not seq or seq[-1] != ("next", 0):
-                rep.bad("R14.6", "false-before-exhaustion", "false is returned before the pair loops are exhausted (last decisions %s)" % seq[-2:], where=fn.loc())
+            open_ = [(i, j) for i, j in pairs if not (cond(i, j) is False or cond(j, i) is False)]
+            if open_:
+                rep.bad("R14.6", "false-before-exhaustion", "false is returned on [%s] although the segment pair(s) %s were not found harmless" % (show_pc(p.pc)[:160], open_), where=fn.loc())
                 return
         else:
             rep.bad("R14.6", "result", "unexpected result %s" % r[:60], where=fn.loc())
             return
-    if n < 5:
+    if n < 20:
         rep.bad("R14.6", "floor", "only %d table rows" % n, where=fn.loc())
     else:
-        rep.ok("R14.6", "pairwise-table[%d rows]" % n)
+        rep.ok("R14.6", "pairwise-table[%d rows, 3 segments]" % n)
     # who calls it: every ring of a polygon (exterior and interiors) and line strings are tested
     users = sorted({short(g.path) for g in F.lib_fns(("geo",)) for c in g.calls() if (c.path or "").endswith("utils::linestring_has_self_intersection")})
     rep.info["self_intersection_callers"] = users
